@@ -121,40 +121,40 @@ def run(req):
 
 # ---------------------------------------------------------------- AST canonical form (C06)
 def canon(node):
-    """Canonical text of a CPython (3.6/3.7) AST in the Python 3.4 field set, matching harness/astcanon.go."""
+    """Canonical positional text of a CPython (3.6/3.7) AST in the Python 3.4 field set; matches harness/astcanon.go."""
     if node is None:
         return "None"
     if isinstance(node, list):
         return "[" + ",".join(canon(n) for n in node) + "]"
     if isinstance(node, ast.AST):
         name = type(node).__name__
+        low = name.lower()
         if name == "Num":
             n = node.n
             if isinstance(n, complex):
-                return "Num(c:" + enc(n.imag) + ")"
-            return "Num(" + enc(n) + ")"
+                return "num(c:" + enc(n.imag) + ")"
+            return "num(" + enc(n) + ")"
         if name == "Str":
-            return "Str(" + enc(node.s) + ")"
+            return "str(" + enc(node.s) + ")"
         if name == "Bytes":
-            return "Bytes(" + enc(node.s) + ")"
+            return "bytes(" + enc(node.s) + ")"
         if name == "NameConstant":
-            return "NameConstant(" + enc(node.value) + ")"
-        if name == "Ellipsis":
-            return "Ellipsis()"
-        if name in ("Load", "Store", "Del", "AugLoad", "AugStore", "Param"):
-            return name
-        if name == "Call":
+            return "nameconstant(" + enc(node.value) + ")"
+        if not node._fields:
+            return low
+        if name in ("Call", "ClassDef"):
             # fold *args / **kwargs back into the 3.4 shape
+            posargs = node.args if name == "Call" else node.bases
             args, star, kws, dstar = [], None, [], None
             bad = False
-            for a in node.args:
+            for a in posargs:
                 if isinstance(a, ast.Starred):
                     if star is not None:
                         bad = True
                     star = a.value
                 else:
                     if star is not None:
-                        bad = True  # positional after *x: legal in 3.5+, but 3.4 folds differently
+                        bad = True  # positional after *x: 3.5+ only
                     args.append(a)
             for k in node.keywords:
                 if k.arg is None:
@@ -162,18 +162,25 @@ def canon(node):
                         bad = True
                     dstar = k.value
                 else:
+                    if dstar is not None:
+                        bad = True  # keyword after **x: 3.5+ only
                     kws.append(k)
             if bad:
                 raise ValueError("fenced: PEP 448 call")
-            return "Call(func=%s,args=%s,keywords=%s,starargs=%s,kwargs=%s)" % (
-                canon(node.func), canon(args), canon(kws), canon(star), canon(dstar))
+            if name == "Call":
+                return "call(%s,%s,%s,%s,%s)" % (canon(node.func), canon(args), canon(kws), canon(star), canon(dstar))
+            return "classdef(%s,%s,%s,%s,%s,%s,%s)" % (canon(node.name), canon(args), canon(kws), canon(star), canon(dstar), canon(node.body), canon(node.decorator_list))
         parts = []
         for f in node._fields:
+            if name == "comprehension" and f == "is_async":
+                continue
             v = getattr(node, f, None)
             if name == "Dict" and f == "keys" and any(k is None for k in v):
                 raise ValueError("fenced: PEP 448 dict")
-            parts.append(f + "=" + canon(v))
-        return name + "(" + ",".join(parts) + ")"
+            parts.append(canon(v))
+        if name in ("JoinedStr", "FormattedValue", "AnnAssign", "AsyncFunctionDef", "AsyncFor", "AsyncWith", "Await", "MatMult", "Constant"):
+            raise ValueError("fenced: post-3.4 node " + name)
+        return low + "(" + ",".join(parts) + ")"
     if isinstance(node, str):
         return "id:" + node
     if isinstance(node, bool):
@@ -188,9 +195,9 @@ def do_ast(req):
     try:
         tree = ast.parse(req["src"], "<case>", mode)
     except SyntaxError as e:
-        return {"ok": False, "exc": type(e).__name__}
+        return {"ok": False, "exc": type(e).__name__, "msg": str(e.msg)}
     except (ValueError, OverflowError, RecursionError, MemoryError) as e:
-        return {"ok": False, "exc": type(e).__name__}
+        return {"ok": False, "exc": type(e).__name__, "msg": ""}
     try:
         return {"ok": True, "tree": canon(tree)}
     except ValueError as e:
@@ -218,8 +225,8 @@ def do_complete(req):
 
 
 def main():
-    for line in _real_stdin:
-        line = line.strip()
+    for raw in _real_stdin.buffer:
+        line = raw.decode("utf-8").strip()
         if not line:
             continue
         try:
